@@ -173,6 +173,14 @@ def run(ck, F, E):
                 cb = F.bodies.get(cp)
                 if cb and cb.calls_to("ProgramLines::data_iterator"):
                     ok = True
+        if not ok:
+            # `if self.data_iterator.is_none() { self.data_iterator = Some(self.numbered_lines.data_iterator()) }`
+            for (b2, i2, pl2, rv2, sp2) in nd.assigns():
+                fs2 = [p for p in pl2["proj"] if p["k"] == "field"]
+                e2 = strip_expr(nd.rv_expr(rv2))
+                if fs2 and fs2[-1].get("name") == "data_iterator" and e2[0] == "agg" and e2[2] == "Some":
+                    if any(x[1].endswith("ProgramLines::data_iterator") for x in expr_calls(e2)):
+                        ok = True
         ck.require(ok, "C11:CONSUMER:READ", "consumer", "next_data_element rebuilds a missing cursor from "
                    "ProgramLines::data_iterator() of the current lines",
                    "next_data_element no longer rebuilds the DATA cursor from the current program lines", nd.span)
@@ -403,6 +411,12 @@ def consumer_pop(ck, F):
                 t = arm_target(targets, otherwise, names, "None")
                 if any(a[1] == "ReturnWithoutGosub" for a in region_aggregates(b, exclusive_region(b, t))):
                     ok = True
+    if not ok:
+        # `self.stack.pop().ok_or(InterpreterError::ReturnWithoutGosub)?`
+        from lib import ok_or_sites
+        for (oc, srcs) in ok_or_sites(b, "ReturnWithoutGosub"):
+            if any(x.callee.endswith("Vec::pop") and "stack" in show(b.expr(x.args[0])) for x in srcs):
+                ok = True
     ck.require(ok, "C11:CONSUMER:ReturnWithoutGosub", "consumer",
                "RETURN pops Program.stack and reports ReturnWithoutGosub on None",
                "return_to_last_gosub no longer reports ReturnWithoutGosub on an empty stack", b.span)
